@@ -225,6 +225,7 @@ def renamer_tasks(tier):
     for t in ('hoist_visitors', 'hoisted_value', 'insert', 'placement', 'cost_model'):
         ts.append(Task('hoist.' + t, 'contracts.hoist:task_' + t))
     ts.append(Task('pipeline.minify', 'contracts.pipeline:task_minify'))
+    ts.append(Task('pipeline.awslambda', 'contracts.pipeline:task_awslambda'))
     ts.append(Task('folding.visit_BinOp', 'contracts.folding:task_visit_binop'))
     return ts
 
@@ -232,7 +233,7 @@ def renamer_tasks(tier):
 REN_TRUST = ['scoping table spec_scope (language reference 4.2, 6.2.4, PEP 572), hand-written', 'recursive calls and callee functions used by contract '
              '(each verified as its own function under contract)', 'CPython symtable conformance of the scoping table is only cross-checked boundedly (rename sweep)']
 
-prop('C03', 'Renaming preserves which binding every name refers to', 'proof', lambda tier: renamer_tasks(tier) + [sweep('compile,behaviour:rename', tier, 'C03')],
+prop('C03', 'Renaming preserves which binding every name refers to', 'other', lambda tier: renamer_tasks(tier) + [sweep('compile,behaviour:rename', tier, 'C03')],
      ['C03/', 'C04/NameAssigner', 'C04/util.arg_rename_in_place', 'C09/resolve_names'], replay='props.replay_rename:replay_rename', trusted=REN_TRUST,
      explanation='(a) mapper.add_parent and its helpers: for a symbolic node of every class the namespace passed for every child equals the scoping table '
                  '(enclosing vs own namespace, first comprehension iterable, walrus targets, annotations of every parameter kind). (b) resolve_names.'
@@ -245,7 +246,8 @@ prop('C03', 'Renaming preserves which binding every name refers to', 'proof', la
                  'module-level binding of the same name (class-body lookup goes class -> globals). (e) reservation_scope: inductive per-iteration '
                  'contract of the namespace-chain walk (every namespace between a reference and the binding is in the scope, whatever its class); '
                  'reserve_name and available_name against the same scope. The proof is relative to the hand-written scoping table (trusted); its '
-                 'conformance with CPython symtable is only sampled by the bounded sweep.')
+                 'conformance with CPython symtable is only sampled by the bounded sweep. Level "other": two open known findings found by sub-agents (KF-24 a bare '
+                 '`global eval` declaration hides the reflective builtin; KF-25 first parameter of an old-style static method).')
 prop('C04', 'Externally visible names are never changed', 'proof', lambda tier: renamer_tasks(tier) + [sweep('interface', tier, 'C04')],
      ['C04/'], replay='props.replay_rename:replay_rename', trusted=REN_TRUST,
      explanation='arg_rename_in_place is true exactly for self/cls-like first parameters of plain or @classmethod methods, star parameters and positional-only '
@@ -259,11 +261,12 @@ prop('C06', 'Hoisted literals are bound once, before use, to an identical value'
                  'module namespaces only (nearest_function_namespace), on the common prefix of all uses (common_path step); HoistedBinding.rename assigns the '
                  'first occurrence\'s own node once through util.insert, whose generator is proved to place the statement after exactly the docstring/'
                  '__future__ prefix (loop invariant); folded constants keep parent and namespace.')
-prop('C09', 'Dynamic name access freezes every name in the module', 'proof', lambda tier: renamer_tasks(tier) + [sweep('freeze', tier, 'C09')],
+prop('C09', 'Dynamic name access freezes every name in the module', 'other', lambda tier: renamer_tasks(tier) + [sweep('freeze', tier, 'C09')],
      ['C09/'], replay='props.replay_rename:replay_rename', trusted=REN_TRUST,
      explanation='Detection: resolve_names.get_binding taints the module for exec/eval/locals/globals/vars resolved as builtins, visit_alias for star imports. '
                  'Freeze: on every path of minify() with module.tainted, allow_rename_locals/allow_rename_globals receive False, rename_literals and '
-                 'remove_no_arg_exception_call are not called; pinned bindings are never renamed (C04).')
+                 'remove_no_arg_exception_call are not called; pinned bindings are never renamed (C04). Level "other": open known finding KF-24 (a bare `global eval` '
+                 'declaration makes later uses of the builtin resolve to a module binding, so the module is not tainted).')
 prop('C10', 'Names the user asks to preserve are preserved', 'proof', lambda tier: renamer_tasks(tier) + [sweep('preserve,frame', tier, 'C10'), Task('cli.do_minify', 'contracts.cli:task_do_minify')],
      ['C10/', 'C13/do_minify/preserve'], replay='props.replay_rename:replay_rename', trusted=REN_TRUST,
      explanation='minify normalises str/None/list arguments and passes every name on (plus module.preserved); allow_rename_locals pins every listed binding of '
